@@ -6,8 +6,12 @@ import numpy as np
 
 from common import R, Rvec, Cx, fl, cfl
 
-LEAN_MODULES = ["PyomaVerif.Props.C07", "PyomaVerif.Mutants.C07"]
+from common import wiring_pre_build as pre_build  # noqa: E402,F401
+
+LEAN_MODULES = ["PyomaVerif.Props.C07", "PyomaVerif.Mutants.C07", "PyomaVerif.Props.WiringMpe"]
 THEOREMS = [
+    # call-site wiring of the class layer, regenerated from /repo on every run (translate_wiring.py)
+    "PV.WiringMpe.C07_efdd_mpe_wiring",
     "PV.C07.C07_normCorr_scale",
     "PV.C07.C07_bell_scale_fsdd",
     "PV.C07.C07_bell_scale_efdd",
